@@ -2270,7 +2270,7 @@ package xpath
 //@ func (*absoluteQuery).Select
 //@   props C15 C13 C12
 //@   theory stream for C13 C12
-//@   uses one-document
+//@   uses one-document tree-kinds tree-parent
 //@   ensures[document-root@C13] old(a.count) == 0 ==> n != nil && pos(n) == rootof(old(pos(cur(t)))) && isFresh(n)
 //@   ensures[once@C13] old(a.count) > 0 ==> n == nil
 //@   assume[exhausted-state] xh(a) ==> a.count > 0
